@@ -36,5 +36,14 @@ PY
 }
 export -f one
 ls -d seeded/$GLOB/ | xargs -P "$J" -I{} bash -c 'one {}' | tee /tmp/sm-results.tsv
-sort /tmp/sm-results.tsv > seeded/RESULTS.tsv; rm -f /tmp/sm-results.tsv
+rm -f /tmp/sm-results.tsv
+# RESULTS.tsv is regenerated from every meta.json (so a partial run does not lose the other rows)
+python3 - <<'PY'
+import json,glob
+rows=[]
+for f in sorted(glob.glob('seeded/*/meta.json')):
+    m=json.load(open(f)); d=m.get('detection',{})
+    rows.append("%s\t%s\tround=%s\texit=%s\t%s"%(m['name'],m['property'],m.get('round',1),d.get('exit','?'),d.get('first_violation','')))
+open('seeded/RESULTS.tsv','w').write("\n".join(rows)+"\n")
+PY
 git -C /repo worktree prune
